@@ -21,10 +21,15 @@ def rule_R1(ctx, f):
     rid = "R1"
     ctx.rule(rid, "ASCII-only validators with exact constant sets: abstract interpretation over character classes must give, for is_valid_label_name, the language "
                   "[a-zA-Z_][a-zA-Z0-9_]* and for is_valid_metric_name [a-zA-Z_:][a-zA-Z0-9_:]* (empty input rejected; digits only after the first character)")
+    import string
+    letters = set(map(ord, string.ascii_letters))
     want = {
-        "is_valid_label_name": {"ASCII_ALPHA", "('lit', '_')"},
-        "is_valid_metric_name": {"ASCII_ALPHA", "('lit', '_')", "('lit', ':')"},
+        "is_valid_label_name": letters | {ord("_")},
+        "is_valid_metric_name": letters | {ord("_"), ord(":")},
     }
+
+    def fmt(pts, uni=()):
+        return "[%s]%s" % ("".join(chr(x) if 32 < x < 127 else "\\x%02x" % x for x in sorted(pts)), (" + " + ",".join(sorted(uni))) if uni else "")
     for name, first_ok in want.items():
         b = ctx.anchor(rid, name, f.body("prometheus::desc::" + name))
         if not b:
@@ -37,18 +42,27 @@ def rule_R1(ctx, f):
                    site=b.raw["span"]["at"], kind="UNRECOGNISED")
             continue
         ctx.ob(rid, name + "|empty", res.get("EMPTY") is False, "%s(\"\") must be false (found %s)" % (name, res.get("EMPTY")), site=b.raw["span"]["at"])
-        tail_ok = frozenset(first_ok | {"ASCII_DIGIT"})
-        for scen, r in sorted(res.items()):
-            if scen == "EMPTY":
+        tail_ok = first_ok | set(map(ord, string.digits))
+        # accepted first characters, and the tail language after each accepted first character
+        acc_first, bad_tail, other = set(), [], []
+        acc_uni = set()
+        for cls, r in res["first"]:
+            pts, uni = absint.code_points([cls])
+            if r is False:
                 continue
-            if scen in first_ok:
-                ok = isinstance(r, tuple) and r[0] == "all" and r[1] == tail_ok
-                ctx.ob(rid, "%s|first=%s" % (name, scen), ok,
-                       "%s: a string starting with a %s character must be accepted exactly when all following characters are in %s (found %s)" % (
-                           name, scen, sorted(tail_ok), (r[0], sorted(r[1])) if isinstance(r, tuple) else r), site=b.raw["span"]["at"])
+            if isinstance(r, tuple) and r[0] == "all":
+                acc_first |= pts
+                acc_uni |= uni
+                if r[1][0] != tail_ok or r[1][1]:
+                    bad_tail.append((fmt(pts, uni), fmt(*r[1])))
             else:
-                ctx.ob(rid, "%s|first=%s" % (name, scen), r is False,
-                       "%s: a string starting with a %s character must be rejected (found %s)" % (name, scen, (r[0], sorted(r[1])) if isinstance(r, tuple) else r), site=b.raw["span"]["at"])
+                other.append((fmt(pts, uni), r))
+        ctx.ob(rid, name + "|first-characters", acc_first == first_ok and not acc_uni and not other,
+               "%s must accept exactly the first characters %s (ASCII only); it accepts %s%s" % (name, fmt(first_ok), fmt(acc_first, acc_uni), ("; unconditional results %s" % other) if other else ""),
+               site=b.raw["span"]["at"])
+        ctx.ob(rid, name + "|following-characters", not bad_tail,
+               "%s: after an accepted first character a string must be accepted exactly when all following characters are in %s; found %s" % (name, fmt(tail_ok), bad_tail),
+               site=b.raw["span"]["at"])
     # the functions reachable from the validators
     for n in ("matches_charset_without_colon", "matches_charset_with_colon", "is_valid_ident"):
         bb = f.body("prometheus::desc::" + n)
